@@ -169,6 +169,18 @@ def make_scenario(seed, idx, tool):
         scn["num_workers"] = int(rng.choice([0, 0, 2]))
         scn["prefix"] = str(rng.choice(["", "f-"]))
         scn["suffix"] = str(rng.choice([".pt", ".feat"]))
+        # a second run with --manifest: some utterances are listed as done already.  Ids are not of one width: one listed id
+        # contains an unlisted one ("utt1" / "utt10"), and the manifest also names utterances that are no longer in the map
+        a, b = (int(v) for v in rng.permutation(len(utts))[:2])
+        utts[a]["id"] = utts[b]["id"] + "0"
+        listed = [utts[a]["id"]] + [u["id"] for k, u in enumerate(utts) if k not in (a, b) and rng.random() < 0.3]
+        scn["manifest_listed"] = listed
+        scn["manifest_stale"] = ["gone-" + utts[b]["id"] + "-x", "utt"]
+        if multi and not (deltas_in_post):
+            # the frameless recording has more channels than samples (channels first, as the tool documents)
+            u = utts[i_short]
+            u["n"] = min(u["n"], 3)
+            u["channels"] = max(u["channels"], u["n"] + 1)
     return scn
 
 
@@ -359,6 +371,8 @@ def run_torch(scn, d, mp, syntax, seed_opt, tag, stats_path):
         args.append("--file-suffix=" + scn["suffix"])
     if scn.get("num_workers"):
         args.append("--num-workers=%d" % scn["num_workers"])
+    if scn.get("manifest_path"):
+        args.append("--manifest=" + scn["manifest_path"])
     try:
         rc = CL.signals_to_torch_feat_dir(args)
     except BaseException as e:  # noqa
@@ -542,6 +556,21 @@ def run_case(case, rec, mon=None):
             rec.count("syntax_pairs_%s_%s" % tuple(sorted(scn["syntax"])))
             if set(res2["out"]) != set(res["out"]) or any(not np.array_equal(res["out"][k], res2["out"][k]) for k in res["out"] if res["out"][k] is not None):
                 v("configuration given as %s and as %s gives different output (fixed --seed)" % (scn["syntax"][0], scn["syntax"][1]), check="syntax")
+            if tool == "torch" and scn.get("manifest_listed"):
+                # ---- the same command with a manifest that lists some utterances as done: exactly the others are stored, as before
+                mpath = os.path.join(d, "manifest.txt")
+                listed = [i for i in scn["manifest_listed"] if i in expected]
+                open(mpath, "w").write("".join(i + "\n" for i in scn["manifest_stale"][:1] + listed + scn["manifest_stale"][1:]))
+                resm = runner(dict(scn, manifest_path=mpath), d, path, scn["syntax"][0], scn["seed_opt"], "m", stats_path)
+                rec.count("runs_with_a_manifest_listing_some_utterances")
+                want_m = set(expected) - set(listed)
+                if resm["rc"] not in (0, None):
+                    v("torch tool with --manifest returned %r for scenario %d" % (resm["rc"], scn["idx"]), check="exit_code")
+                elif set(resm["out"]) != want_m:
+                    v("with a manifest listing %s the tool stored %s; expected %s (missing %s, unexpected %s)" % (listed, sorted(resm["out"]), sorted(want_m),
+                      sorted(want_m - set(resm["out"])), sorted(set(resm["out"]) - want_m)), check="key_set_manifest")
+                elif any(not np.array_equal(resm["out"][k], res["out"][k]) for k in want_m if res["out"].get(k) is not None):
+                    v("an utterance computed in a run with a manifest differs from the same utterance of the run without (fixed --seed)", check="manifest_value")
             if scn["kind"] == "dither":
                 # two separate interpreter processes, as two invocations of the console script would be
                 outs = []
